@@ -542,6 +542,81 @@ Section Append.
         destruct (run_phase (final_ops A) n2 None None s2) as [[s3 e3] n3]; destruct e3; discriminate.
     - discriminate.
   Qed.
+
+  Lemma main_ops_length : length (main_ops A off chunks) = n_main chunks.
+  Proof. unfold main_ops, n_main. cbn [app length]. rewrite app_length, map_length. cbn [length]. lia. Qed.
+
+  (* the same with what happens to the other files *)
+  Theorem unlink_fault_full d w :
+    exists s', write_record A chunks (Some (Intr (length (main_ops A off chunks)) d w)) None s = Raised s'
+      /\ content s' A = old ++ concat chunks
+      /\ lookup s' J = (if d then None else Some jb)
+      /\ forall g, g <> A -> g <> J -> lookup s' g = lookup s g.
+  Proof.
+    destruct success_appends as [s0 [R0 _]].
+    unfold write_record in *.
+    rewrite run_phase_fault_beyond by (cbn [plus]; lia).
+    destruct (run_phase (main_ops A off chunks) 0 None None s) as [[s1 e1] n1] eqn:RM.
+    assert (O1 : forall g, g <> A -> g <> J -> lookup s1 g = lookup s g).
+    { intros g NA NJ. pose proof (run_phase_other _ g (main_ops_targets g NA NJ) 0 None None s) as H.
+      now rewrite RM in H. }
+    destruct e1.
+    - pose proof (run_phase_ok_index _ _ _ _ _ _ _ RM) as N1. cbn [plus] in N1. subst n1.
+      destruct (main_phase _ _ _ _ _ RM) as [_ M2]. destruct (M2 eq_refl) as [D1 L1].
+      unfold final_ops. cbn [run_phase hits]. rewrite Nat.eqb_refl.
+      eexists. split; [reflexivity|]. cbn [partial_op apply_op]. unfold exists_file. rewrite L1.
+      destruct d.
+      + split; [|split; [apply lookup_remove_same|]].
+        * unfold SD in D1. rewrite <- D1. apply content_lookup. apply lookup_remove_other. exact JA.
+        * intros g NA NJ. rewrite lookup_remove_other by congruence. apply O1; assumption.
+      + split; [exact D1|split; [exact L1|exact O1]].
+    - exfalso. destruct (run_phase (rollback_ops A off) n1 None None s1) as [[s2 e2] n2].
+      destruct e2; try discriminate;
+        destruct (run_phase (final_ops A) n2 None None s2) as [[s3 e3] n3]; destruct e3; discriminate.
+    - discriminate.
+  Qed.
+
+  (* a fault planned beyond the last primitive never fires *)
+  Lemma fault_beyond k d w :
+    (length (main_ops A off chunks) < k)%nat ->
+    write_record A chunks (Some (Intr k d w)) None s = write_record A chunks None None s.
+  Proof.
+    intros Hk. unfold write_record.
+    rewrite run_phase_fault_beyond by (cbn [plus]; lia).
+    destruct (run_phase (main_ops A off chunks) 0 None None s) as [[s1 e1] n1] eqn:RM.
+    destruct e1; try reflexivity.
+    pose proof (run_phase_ok_index _ _ _ _ _ _ _ RM) as N1. cbn [plus] in N1. subst n1.
+    rewrite run_phase_fault_beyond by (cbn [final_ops length]; lia). reflexivity.
+  Qed.
+
+  (* one attempt under an arbitrary fault plan (no crash): always Completed or Raised, the archive is
+     old or old + record according to [survives], the other files are untouched, and the journal is
+     gone unless the unlink itself failed without effect *)
+  Theorem append_outcome flt :
+    exists s', (write_record A chunks flt None s = Completed s' \/ write_record A chunks flt None s = Raised s')
+      /\ content s' A = (if survives (chunks, flt) then old ++ concat chunks else old)
+      /\ (forall g, g <> A -> g <> J -> lookup s' g = lookup s g)
+      /\ (clean (chunks, flt) = true -> lookup s' J = None).
+  Proof.
+    destruct flt as [[k d w]|].
+    - unfold survives, clean. cbn [fst snd].
+      destruct (Nat.lt_trichotomy k (n_main chunks)) as [Hk|[Hk|Hk]].
+      + destruct (io_error_restores k d w) as [s' [R [C [LJ O]]]]; [rewrite main_ops_length; exact Hk|].
+        exists s'. split; [right; exact R|].
+        replace (Nat.leb (n_main chunks) k) with false by (symmetry; apply Nat.leb_gt; exact Hk).
+        split; [exact C|split; [exact O|intros _; exact LJ]].
+      + subst k. destruct (unlink_fault_full d w) as [s' [R [C [LJ O]]]].
+        rewrite main_ops_length in R.
+        exists s'. split; [right; exact R|]. rewrite Nat.leb_refl.
+        split; [exact C|split; [exact O|]]. rewrite Nat.eqb_refl. cbn [negb orb].
+        intros ->. exact LJ.
+      + destruct success_appends as [s' [R [C [LJ O]]]].
+        exists s'. split; [left; rewrite fault_beyond by (rewrite main_ops_length; exact Hk); exact R|].
+        replace (Nat.leb (n_main chunks) k) with true by (symmetry; apply Nat.leb_le; lia).
+        split; [exact C|split; [exact O|intros _; exact LJ]].
+    - destruct success_appends as [s' [R [C [LJ O]]]].
+      exists s'. split; [left; exact R|]. cbn. split; [exact C|split; [exact O|intros _; exact LJ]].
+  Qed.
 End Append.
 
 (* ---------------------------------------- validity-level corollary of the crash theorem *)
@@ -564,6 +639,103 @@ Section Valid.
     - right. repeat split; try assumption. now rewrite T.
   Qed.
 End Valid.
+
+(* ------------------------------------------------------------ histories of appends *)
+Definition data_of (e : attempt) : bytes := concat (fst e).
+
+Definition kept (h : list attempt) : bytes := concat (map data_of (filter survives h)).
+
+Lemma state_of_outcome s A chunks flt s' :
+  (write_record A chunks flt None s = Completed s' \/ write_record A chunks flt None s = Raised s') ->
+  state_of (write_record A chunks flt None s) = s'.
+Proof. intros [-> | ->]; reflexivity. Qed.
+
+(* after ANY sequence of attempts, each with a fault at an arbitrary primitive and with an
+   arbitrary partial effect: the archive is exactly the old archive followed by the records
+   of the attempts that survived, in order; no other file changed *)
+Theorem history_content A : forall h s,
+  content (run_history A h s) A = content s A ++ kept h
+  /\ forall g, g <> A -> g <> journal_name A -> lookup (run_history A h s) g = lookup s g.
+Proof.
+  induction h as [|[chunks flt] h IH]; intros s.
+  - cbn. split; [now rewrite app_nil_r|reflexivity].
+  - cbn [run_history].
+    destruct (append_outcome s A chunks flt) as [s' [R [C [O _]]]].
+    rewrite (state_of_outcome _ _ _ _ _ R).
+    destruct (IH s') as [IC IO]. split.
+    + rewrite IC, C. unfold kept. cbn [filter].
+      destruct (survives (chunks, flt)); cbn [map concat]; [|reflexivity].
+      unfold data_of at 1. cbn [fst]. now rewrite app_assoc.
+    + intros g NA NJ. rewrite IO by assumption. apply O; assumption.
+Qed.
+
+(* ... and no journal is left when the last attempt was clean (or there was none and there was no journal) *)
+Theorem history_journal A : forall h s,
+  lookup s (journal_name A) = None ->
+  Forall (fun e => clean e = true) h ->
+  lookup (run_history A h s) (journal_name A) = None.
+Proof.
+  induction h as [|[chunks flt] h IH]; intros s L F; [exact L|].
+  cbn [run_history]. inversion F as [|e t Fe Ft]; subst.
+  destruct (append_outcome s A chunks flt) as [s' [R [_ [_ LJ]]]].
+  rewrite (state_of_outcome _ _ _ _ _ R). apply IH; [apply LJ; exact Fe|exact Ft].
+Qed.
+
+Section HistoryValid.
+  Variable valid : bytes -> bool.        (* the strict reader, plain or compressed *)
+  Hypothesis valid_app : forall a b, valid a = true -> valid b = true -> valid (a ++ b) = true.
+  Hypothesis valid_nil : valid [] = true.
+
+  Lemma kept_valid h : Forall (fun e => valid (data_of e) = true) h -> valid (kept h) = true.
+  Proof.
+    unfold kept. induction 1 as [|e h He Hh IH]; [exact valid_nil|].
+    cbn [filter]. destruct (survives e); [|exact IH]. cbn [map concat]. apply valid_app; assumption.
+  Qed.
+
+  (* the archive stays a valid record sequence through every history of failed and successful appends *)
+  Theorem history_valid A h s :
+    valid (content s A) = true ->
+    Forall (fun e => valid (data_of e) = true) h ->
+    valid (content (run_history A h s) A) = true.
+  Proof.
+    intros V F. destruct (history_content A h s) as [C _]. rewrite C.
+    apply valid_app; [exact V|apply kept_valid; exact F].
+  Qed.
+
+  (* one append, crash at any point: validity-level statement with the reader *)
+  Theorem crash_valid s A chunks flt crash s' :
+    valid (content s A) = true ->
+    valid (concat chunks) = true ->
+    write_record A chunks flt crash s = Crashed s' ->
+    valid (content s' A) = true
+    \/ (lookup s' (journal_name A) <> None
+        /\ parse_journal (content s' (journal_name A)) = Some (size s A)
+        /\ truncate_to (size s A) (content s' A) = content s A
+        /\ valid (truncate_to (size s A) (content s' A)) = true).
+  Proof.
+    intros V0 V1 R.
+    apply (crash_recoverable_valid (fun c => valid c = true) s A chunks flt crash s' V0); [|exact R].
+    apply valid_app; assumption.
+  Qed.
+
+  (* a whole run: any history of attempts with faults, then the process dies during a further append *)
+  Theorem history_then_crash A h chunks flt crash s s' :
+    valid (content s A) = true ->
+    Forall (fun e => valid (data_of e) = true) h ->
+    valid (concat chunks) = true ->
+    write_record A chunks flt crash (run_history A h s) = Crashed s' ->
+    valid (content s' A) = true
+    \/ (lookup s' (journal_name A) <> None
+        /\ parse_journal (content s' (journal_name A)) = Some (size (run_history A h s) A)
+        /\ truncate_to (size (run_history A h s) A) (content s' A) = content s A ++ kept h
+        /\ valid (truncate_to (size (run_history A h s) A) (content s' A)) = true).
+  Proof.
+    intros V F V1 R.
+    pose proof (history_valid A h s V F) as VH.
+    destruct (crash_valid _ _ _ _ _ _ VH V1 R) as [H|[L [PJ [T VT]]]]; [left; exact H|right].
+    repeat split; try assumption. rewrite T. apply history_content.
+  Qed.
+End HistoryValid.
 
 (* ------------------------------------------------------------ start-up check *)
 Lemma lookup_in (s : fs) (f : name) : lookup s f <> None -> exists c, In (f, c) s.
@@ -622,4 +794,12 @@ Theorem crashed_then_refused prefix sized meta seq compress chunks flt crash s s
 Proof.
   intros A R. destruct (crash_recoverable s A chunks flt crash s' R) as [E|[E|[L _]]]; [tauto|tauto|].
   right; right. eapply refuses_leftover. exact L.
+Qed.
+
+(* the constructor of a new run: while ANY journal of this prefix exists it raises and touches nothing *)
+Theorem init_refuses prefix sized0 meta seq compress0 sized compress appending info flt crash s :
+  lookup s (journal_name (warc_filename prefix sized0 meta seq compress0)) <> None ->
+  recorder_init prefix sized compress appending info flt crash s = (StartRefused, Raised s).
+Proof.
+  intros L. unfold recorder_init. rewrite (refuses_leftover _ _ _ _ _ _ L). reflexivity.
 Qed.
